@@ -35,11 +35,11 @@ SLEEPING = ("ATTR gateway.nodes[In.node_id].sleeping = True",)
 
 def run(ctx: Ctx, chk) -> None:
     chk.assume("A1", "A3")
-    prov_reg(ctx, chk)
-    node_methods(ctx, chk)
-    guard_mut(ctx, chk)
-    who_reg(ctx, chk)
-    listen1(ctx, chk)
+    chk.run_rule(prov_reg, ctx)
+    chk.run_rule(node_methods, ctx)
+    chk.run_rule(guard_mut, ctx)
+    chk.run_rule(who_reg, ctx)
+    chk.run_rule(listen1, ctx)
 
 
 # ---------------------------------------------------------------------------
